@@ -18,7 +18,11 @@ So here a `Write` is (location, after-image) with the locations
 and the record of a transaction is NOT a second hand-written semantics of `write_plan`: it is read off
 the existing physical step `Refine.pRun` (= `HashColumn::write_plan` per operation): `planWrites` runs
 the transaction and lists, for the candidate locations `cands`, those whose content differs between
-the state before and the state after, with the content after (`diffWrites`).
+the state before and the state after, with the content after (`diffWrites`).  The candidates are
+COMPLETE (theorem `R7_frame`, no invariant assumed): every entry of every index chunk ever written in
+either state, and the slots / headers the value-table functions themselves report as written
+(ghost outputs `WrOk.chain`, `WrOk.freed` of `writeChain`, the cleared slots of `removePlan`,
+collected along the run by `txTouched`).
 
 CANONICALISATION (documented for the tie, command `physrec`): the real record also contains writes
 that leave the location as it was (a header rewritten after a pop followed by a push of the same
@@ -169,11 +173,6 @@ def Loc.Ok : Loc → Prop
 /-- A transaction: the operations of one commit on this column (`PAction.set` / `PAction.del`). -/
 abbrev Tx := List PAction
 
-def PAction.key? : PAction → Option Key
-  | .set k _ => some k
-  | .del k => some k
-  | _ => none
-
 /-! ### the slots and headers a transaction touches (ghost outputs of the value-table functions) -/
 
 /-- slots `overwrite_chain` logs: the chain it writes and the slots it frees -/
@@ -290,15 +289,6 @@ def Frame (T : List (Nat × Nat)) (p p' : PCol) : Prop :=
 /-- same tables (index bits, in order): no index growth, no drop -/
 def NoGrow (p p' : PCol) : Prop := shape p' = shape p
 
-/-- physical states that are equal as memories (and in what is not a location) -/
-structure Eqv (p q : PCol) : Prop where
-  cfg : p.cfg = q.cfg
-  shape : shape p = shape q
-  progress : p.progress = q.progress
-  vtcfg : ∀ tier, (p.vt tier).entrySize = (q.vt tier).entrySize ∧
-    (p.vt tier).multipart = (q.vt tier).multipart ∧ (p.vt tier).refCounted = (q.vt tier).refCounted
-  mem : ∀ l, Loc.Ok l → PhysRec.mem p l = PhysRec.mem q l
-
 /-! ## into the record format of Pdb/Model/Wal.lean -/
 
 def toU8 (bs : Bytes) : Wal.Bytes := bs.map UInt8.ofNat
@@ -353,6 +343,8 @@ structure DState where
   failed : Option String
   /-- last completed record: state before, writes -/
   last : Option (PCol × List Write × PCol)
+  /-- logical kind of the column (`physrec initk`, Pdb/Model/PhysRecRc.lean) -/
+  kind : Pdb.Kind := .plain
   /-- statistics: records compared, model writes, real entry-level writes, real writes dropped as
   no-ops by the canonicalisation -/
   nRec : Nat := 0
@@ -505,7 +497,8 @@ def step (d : DState) (ws : List String) : DState × String :=
     | some bits =>
       if MIN_INDEX_BITS ≤ bits ∧ bits ≤ 40 then
         let p := PCol.init ⟨true, true, true⟩ bits
-        ({ d with col := p, base := p, tx := [], touched := [], failed := none, last := none }, "ok")
+        ({ d with col := p, base := p, tx := [], touched := [], failed := none, last := none,
+                   kind := .plain }, "ok")
       else (d, "bad-op")
     | none => (d, "bad-op")
   | ["init", b, "nopurge"] =>
@@ -513,7 +506,8 @@ def step (d : DState) (ws : List String) : DState × String :=
     | some bits =>
       if MIN_INDEX_BITS ≤ bits ∧ bits ≤ 40 then
         let p := PCol.init ⟨true, true, false⟩ bits
-        ({ d with col := p, base := p, tx := [], touched := [], failed := none, last := none }, "ok")
+        ({ d with col := p, base := p, tx := [], touched := [], failed := none, last := none,
+                   kind := .plain }, "ok")
       else (d, "bad-op")
     | none => (d, "bad-op")
   | ["set", k, v] =>
